@@ -31,6 +31,10 @@ add("C14", "Hypothesis metamorphic testing: G with / without inverse_paths and r
     "Three runs per generated graph compared on canonical documents: outgoing constraints and instance counts unchanged, incoming constraints equal to the outgoing constraints of the reversed graph (keys, cardinalities, figures, comment facts).", "DESIGN.md 2/C14")
 add("C16", "Hypothesis generators + reference-model oracle on the restricted selection / restricted triples + differential run on the filtered document",
     "instances_cap against the reference profiler on the first min(k,|C|) instances in document order (and text equality with the uncapped run when the cap does not bite); namespaces_to_ignore against the reference profiler on the filtered triples and a differential run whose class membership comes from the full graph.", "DESIGN.md 2/C16")
+add("C10", "Hypothesis grammar-based generator of targets / shape maps + independent selector evaluator + reference-model oracle",
+    "Selectors generated from a grammar are evaluated directly on the abstract triples by an independent evaluator; the labels, instance counts and the full recomputation of figures and key sets restricted to that selection must match the output.", "DESIGN.md 2/C10")
+add("C11", "Hypothesis differential testing of the two serialisations of one Shaper (independent ShExC reader vs rdflib/SHACL reader)",
+    "Both outputs of one Shaper are parsed into (shape, direction, predicate, restriction, min, max) tuple sets that must be equal under the mapping table of the property.", "DESIGN.md 2/C11")
 
 ALL = ["C%02d" % i for i in range(1, 21)]
 def main():
